@@ -157,6 +157,9 @@ class Interp:
         if ref is None:
             self.first[mode] = out
             return
+        if out[0] == "exc" and ref[0] == "exc" and out[1] == ref[1] and \
+                (out[2].lower() in ref[2].lower() or ref[2].lower() in out[2].lower()):
+            return          # same error; a batch entry may wrap the text in its own wording
         if out != ref:
             a = "result" if out[0] == "ok" else f"{out[1]}: {out[2][:80]}"
             b = "result" if ref[0] == "ok" else f"{ref[1]}: {ref[2][:80]}"
@@ -245,13 +248,22 @@ class Interp:
                     if not isinstance(e, dict):
                         self.v.fail("batch-entry-missing", f"step {self.step}: no entry {key}")
                         continue
-                    if e["msg"] == "Game solved":
+                    if e.get("rewards") is not None:
                         tup = (e["final_strategies"], e["reachability_strategies"], e["rewards"], e["probabilities"],
                                e["n_iterations_reach"], e["n_iterations_rew"], e["prob_min_rew"], e["rew_min_reach"])
                         self.compare(mode, ("ok", tup), what + ":" + key)
-                    elif mode and e["msg"].startswith("Error while solving the game: "):
-                        msg = e["msg"][len("Error while solving the game: "):]
-                        self.compare(mode, ("exc", "ValueError", msg), what + ":" + key)
+                    elif mode and isinstance(e.get("msg"), str):
+                        ref = self.first.get(mode)
+                        if ref is None:
+                            self.first[mode] = ("exc", "ValueError", e["msg"])
+                        elif ref[0] == "ok":
+                            self.v.fail("not-repeatable", f"step {self.step} ({what}:{key}): the batch run reports a failure "
+                                                          f"({e['msg'][:80]!r}) but the first outcome of that mode was a result",
+                                        sig="exc")
+                        elif ref[2].lower() not in e["msg"].lower() and e["msg"].lower() not in ref[2].lower():
+                            self.v.fail("not-repeatable", f"step {self.step} ({what}:{key}): the batch run's message "
+                                                          f"{e['msg'][:80]!r} does not carry the error {ref[2][:80]!r}",
+                                        sig="exc")
         else:
             raise ValueError(f"unknown op {op}")
         return self.check_intact(what)
